@@ -135,6 +135,17 @@ def dt_explore(res, mod, f, pastify, subs, top, tier):
             res.outcomes['as fresh'] += 1
 
     st = explore.bfs(m, 5 if quick else 7, 400 if quick else 20000, 'none', None, on_state, max_states=60 if quick else 400)
+    # long pre-reset histories (behaviour that depends on the number of updates, e.g. buffers compacted in blocks)
+    long_hist = F.long_traces(len(m.vs), 40, F.V3 if len(m.vs) == 1 else F.V2)
+    for hist in long_hist[::(60 if quick else 12)]:
+        obj = m.fresh()
+        ok = True
+        for i, e in enumerate(hist):
+            if m.apply(obj, hist[:i], e)[0] != 'ok':
+                ok = False
+                break
+        if ok:
+            on_state(tuple(hist), obj)
     res.formulas += 1
     res.states += st.states
     res.transitions += st.transitions
